@@ -664,3 +664,8 @@ def run(rep, programs):
     from props import c01
     c01.r_huge_coord(rep, prog)
     c01.r_units(rep, prog)            # tree, huge and frame numbers are converted with the right ratios on the search paths
+
+
+EXPLANATION = EXPLANATION + (
+    ' R-HUGE-COORD / R-UNITS (shared with C01): counter and bits changed together belong to the same huge frame; index newtypes are converted with the right ratios.'
+)
